@@ -24,10 +24,35 @@ def main():
     nk = job['nkeys']
     traces, structs = [], []
     sent = object()
+    use_jar = bool(job.get('jar'))
+    if use_jar:
+        from harness import minijar
     for tno in range(job['ntraces']):
         t = cls()
         tr = []
+        if use_jar:
+            # the container lives in the stand-in data manager as one record; the history is cut into transactions
+            store = minijar.Store()
+            jar = minijar.Jar(store)
+            root_oid = jar.add(t)
+            jar.commit()
         for step in range(job['length']):
+            if use_jar and rng.random() < 0.22:
+                if rng.random() < 0.75:
+                    jar.commit()
+                    rj = minijar.Jar(store)         # a fresh reader: nothing cached
+                    rt = rj.get(root_oid)
+                    rkeys = [emb.rk(x) for x in rt.keys()]
+                    rvals = [1] * len(rkeys) if is_set else [emb.rv(x) for x in rt.values()]
+                    op = 'commit'
+                else:
+                    jar.abort()
+                    rkeys, rvals = [], []
+                    op = 'abort'
+                keys = [emb.rk(x) for x in t.keys()]
+                vals = [1] * len(keys) if is_set else [emb.rv(x) for x in t.values()]
+                tr.append(dict(op=op, k=0, v=0, ks=[], res=['ok'], keys=keys, vals=vals, rkeys=rkeys, rvals=rvals))
+                continue
             k = rng.randint(1, nk)
             v = 1 if is_set else rng.randint(1, 3)
             rk, rv = emb.key(k), emb.val(v)
@@ -173,7 +198,8 @@ def main():
                 res = ['exc:' + type(e).__name__]
             keys = [emb.rk(x) for x in t.keys()]
             vals = [1] * len(keys) if is_set else [emb.rv(x) for x in t.values()]
-            tr.append(dict(op=op, k=k, v=v, ks=ks, res=res, keys=keys, vals=vals))
+            tr.append(dict(op=op, k=k, v=v, ks=ks, res=res, keys=keys, vals=vals, rkeys=[], rvals=[]) if use_jar else
+                      dict(op=op, k=k, v=v, ks=ks, res=res, keys=keys, vals=vals))
             if is_tree and job.get('structure'):
                 structs.append(dict(tree=P.proj(t, emb, is_set), maxleaf=leaf or t.max_leaf_size,
                                     maxint=internal or t.max_internal_size, keys=[emb.rk(x) for x in t],
